@@ -246,6 +246,7 @@ fn c01_set_run(ctx: &Ctx, pool: &Pool, out: &mut ShardOut) {
     let (single, double, tapes) = (ctx.by_tier(300, 3000) as usize, ctx.by_tier(60, 1500) as usize, ctx.by_tier(16, 120) as usize);
     let seed = ctx.shard_seed(93);
     drive_n(ctx, "lin-set", ctx.shard_seed(4), ctx.share(ctx.by_tier(480, 8_000)) as u32, 120, sc::prog_strategy(3, 3), out, |prog| {
+        ctx.mark_inflight("lin-set", &serde_json::to_string(&sc::SetCase { prog: prog.clone(), schedule: None, budget: Some((single, double, tapes, seed)) }).unwrap());
         let ex = sc::explore(pool, prog, single, double, tapes, seed);
         match ex.failure {
             Some((sw, prop, msg)) => Err(CaseFail { prop, msg: format!("{} [after preemptions {:?}]", msg, sw) }),
@@ -266,7 +267,7 @@ fn c01_set_run(ctx: &Ctx, pool: &Pool, out: &mut ShardOut) {
             if let Ok(prog) = serde_json::from_value::<sc::SetProg>(case) {
                 let ex = sc::explore(pool, &prog, single, double, tapes, seed);
                 let schedule = ex.failure.map(|(sw, _, _)| sc::minimize(pool, &prog, &sw));
-                v.replay = serde_json::json!({"sub": "lin-set", "case": sc::SetCase { prog, schedule }});
+                v.replay = serde_json::json!({"sub": "lin-set", "case": sc::SetCase { prog, schedule, budget: None }});
             }
         }
     }
@@ -277,13 +278,13 @@ fn c01_set_replay(pool: &Pool, case: &Value) -> Result<(), CaseFail> {
     let cc: sc::SetCase = match serde_json::from_value::<sc::SetCase>(case.clone()) {
         Ok(c) => c,
         Err(_) => match serde_json::from_value::<sc::SetProg>(case.clone()) {
-            Ok(p) => sc::SetCase { prog: p, schedule: None },
+            Ok(p) => sc::SetCase { prog: p, schedule: None, budget: None },
             Err(e) => return Err(CaseFail { prop: "C01".into(), msg: format!("bad replay file: {}", e) }),
         },
     };
     match &cc.schedule {
         Some(sw) => sc::judge(&sc::exec(pool, &cc.prog, sw.clone(), None, false)).map(|_| ()).map_err(|(p, m)| CaseFail { prop: p, msg: m }),
-        None => match sc::explore(pool, &cc.prog, 3000, 1500, 120, 1).failure {
+        None => match { let (a, b, c, d) = cc.budget.unwrap_or((3000, 1500, 120, 1)); sc::explore(pool, &cc.prog, a, b, c, d) }.failure {
             Some((sw, prop, msg)) => Err(CaseFail { prop, msg: format!("{} [after preemptions {:?}]", msg, sw) }),
             None => Ok(()),
         },
